@@ -431,6 +431,9 @@ func trMix(seed int64, a, b, c int) uint64 {
 
 const trEndToken = "c06end"
 
+// trForeign is the event number stamped for an event that no line of the server stands for.
+const trForeign = 900000
+
 // trRun executes the scenario and returns the observed trace; stalled reports that a wait was
 // abandoned by the watchdog (nothing at all progressed for c06StallLimit; the trace may then
 // lack late actions).  No wait in here ends because time has passed.
@@ -461,15 +464,27 @@ func trRun(sc *trScenario, seed int64, procs int) (obs []trAct, stalled bool) {
 	dones := make([]chan struct{}, len(sc.handlers))
 	var cuidMu sync.Mutex
 
+	// The text of a scenario's line is "<n>" or, for a long line, "<n> xxxx...x <n>".  seqOf: the
+	// event number; -1 for lines that are not the scenario's (registration, NICK, PING, ...);
+	// trForeign for an event that carries a number but is not a line the server sent (a piece
+	// of a long line).
 	seqOf := func(e girc.Event) int {
 		if len(e.Params) == 0 {
 			return -1
 		}
-		n, err := strconv.Atoi(e.Params[len(e.Params)-1])
-		if err != nil {
+		f := strings.Fields(e.Params[len(e.Params)-1])
+		if len(f) == 0 {
 			return -1
 		}
-		return n
+		first, err1 := strconv.Atoi(f[0])
+		last, err2 := strconv.Atoi(f[len(f)-1])
+		switch {
+		case err1 == nil && err2 == nil && first == last && first >= 0 && (len(f) == 1 || len(f) == 3):
+			return first
+		case (err1 == nil || err2 == nil) && len(f) > 1:
+			return trForeign
+		}
+		return -1
 	}
 	body := func(h int) func(girc.Event) bool {
 		return func(e girc.Event) bool {
@@ -636,9 +651,16 @@ func trRun(sc *trScenario, seed int64, procs int) (obs []trAct, stalled bool) {
 				break
 			}
 		}
-		line := ":" + e.src + " " + e.cmd + " " + cur + " " + strconv.Itoa(n)
+		text := strconv.Itoa(n)
+		tags := ""
+		if x := trMix(seed, 7, n, 0); x%8 == 0 {
+			// a long line (legal with message tags): 4000-9000 bytes, still one event
+			text = text + " " + strings.Repeat("x", 2500+int(x>>8%5000)) + " " + text
+			tags = "@c06=" + strings.Repeat("t", 1000+int(x>>24%1500)) + " "
+		}
+		line := tags + ":" + e.src + " " + e.cmd + " " + cur + " :" + text
 		if e.cmd == "PRIVMSG" || e.cmd == "NOTICE" {
-			line = ":" + e.src + "!user@host " + e.cmd + " #chan :" + strconv.Itoa(n)
+			line = tags + ":" + e.src + "!user@host " + e.cmd + " #chan :" + text
 		}
 		log.stamp(trAct{kind: 'v', n: n})
 		feedOK = send(line)
@@ -757,6 +779,9 @@ func trOracle(sc *trScenario, obs []trAct) string {
 		case 'v':
 			arrive[a.n] = p
 		case 'S':
+			if a.n == trForeign {
+				return fmt.Sprintf("foreign-event: handler %d was run for an event that is not a line the server sent (a piece of a longer line)", a.h)
+			}
 			if a.n >= len(sc.events) || a.h >= len(sc.handlers) {
 				return fmt.Sprintf("unknown-event-or-handler: %s", a)
 			}
